@@ -66,6 +66,9 @@ type Item struct {
 // Reporter collects violations of one check run.
 type Reporter struct {
 	Property string
+	// Alias lists temporary property ids (parts of this property built separately) whose
+	// verdicts are reported under Property.
+	Alias map[string]bool
 	mu       sync.Mutex
 	bySig    map[string]*Item
 	count    map[string]int
@@ -81,6 +84,9 @@ func New(property string) *Reporter {
 // Add records a violation; only the first item per signature is kept (the
 // search is breadth-first, so the first is among the shortest).
 func (r *Reporter) Add(it Item) {
+	if r.Alias[it.Property] {
+		it.Property = r.Property
+	}
 	if it.Property != r.Property {
 		return
 	}
